@@ -117,6 +117,19 @@ def generate(rng, tier):
             ops.append({**q, "t": round(t + 0.0000005, 7), "msg": {**q["msg"], "id": qid}})
             qid += 1
             t += 1.1
+    if rng.random() < 0.35:
+        # ordinary multicast queries (port 5353, several questions: the answers wait in the aggregation or the
+        # one-second queue) shortly before an update or unregister: what is multicast afterwards must be the new state
+        for o in [o for o in ops if o["op"] in ("update", "unregister")]:
+            if rng.random() < 0.6:
+                sv = o["svc"] if o["op"] == "update" else next((x for x in svcs if x["name"] == o["name"]), svcs[0])
+                r = SvcRecords(sv)
+                qs = rng.choice([[[sv["name"], wire.T_SRV, 0], [r.server, wire.T_A, 0]],
+                                 [[ENUM, wire.T_PTR, 0], [sv["name"], wire.T_TXT, 0]],
+                                 [[sv["type"], wire.T_PTR, 0], [r.server, rng.choice([wire.T_A, wire.T_AAAA]), 0]],
+                                 [[r.server, wire.T_A, 0], [r.server, wire.T_AAAA, 0]]])
+                ops.append({"t": round(max(0.01, o["t"] - rng.choice([0.005, 0.02, 0.06, 0.11, 0.3, 0.9, 1.1])), 7),
+                            "op": "send", "p": "Q", "src_port": 5353, "msg": {"q": qs, "id": 0}})
     ops.sort(key=lambda o: o["t"])
     faults = {"max_delay_us": rng.choice([0, 2000, 100000]), "loop_delay_us": rng.choice([0, 1000]),
               "dup_p": rng.choice([0.0, 0.2]), "grid_p": 0.0}
@@ -147,7 +160,7 @@ def _query(rng, t, svcs, live, qid):
             q = ["_printer._sub." + s["type"].split("._sub.")[-1], wire.T_PTR]
             cand = [rec.ptr]
         elif k < 0.35:
-            q = [ENUM, wire.T_PTR]
+            q = [ENUM, wire.T_PTR if rng.random() < 0.8 else wire.T_ANY]
             cand = [wire.RR(ENUM, wire.T_PTR, 4500, s["type"])]
         elif k < 0.5:
             q = [s["name"], wire.T_SRV]
@@ -204,7 +217,7 @@ class ModelRegistry:
         t = q.type
         if q.cls != wire.C_IN:
             return req, opt
-        if t == wire.T_PTR and name == ENUM:
+        if t in (wire.T_PTR, wire.T_ANY) and name == ENUM:
             for ty in sorted(self.types()):
                 req.append(wire.RR(ENUM, wire.T_PTR, 4500, ty))
             return req, opt
@@ -328,6 +341,7 @@ def execute(scenario, seed, overrides=None):
 
         w.run(main())
         _oracle(w, expect, stats, out)
+        _multicast_state_clause(w, drv, stats, out)
         if w.loop.exceptions:
             out.add("C03.loop-exception", f"exception reached the loop handler: {w.loop.exceptions[0]}")
         out.digest = w.digest()
@@ -427,6 +441,56 @@ def _oracle(w, expect, stats, out):
                 if own and all((x in adds or x in answers) for x in own if x[1] != wire.T_NSEC):
                     stats["ptr_answers_with_full_additionals"] += 1
     _history_clause(groups, stats, out)
+
+
+def _multicast_state_clause(w, drv, stats, out):
+    """'After a service is updated or unregistered replies reflect only the new state' also holds for the replies that
+    were waiting in the multicast queues when the change was made: every positive-TTL record the responder multicasts
+    belongs to a service registered (in that version) at that instant."""
+    evs = []
+    mutated = set()
+    for idx, e in enumerate(w.api_log):
+        if e["op"] == "register" and e["t_done"] is not None and e["exc"] is None:
+            evs.append((e["t_done"], idx, "reg", e["svc"]))
+        elif e["op"] == "update" and e["t_done"] is not None and e["exc"] is None:
+            evs.append((e["t_call"], idx, "upd", e["svc"]))
+        elif e["op"] == "unregister":
+            evs.append((e["t_call"], idx, "unreg", e["args"]))
+    for i, op, entry in drv.op_log:
+        if op["op"] == "update" and op.get("mutate"):
+            # a ServiceInfo changed in place: the library cannot know the old records any more (documented assumption)
+            mutated.add(op["svc"]["name"].lower())
+            mutated.add(SvcRecords(op["svc"]).server.lower())
+    evs.sort(key=lambda x: (x[0], x[1]))
+    times = [x[0] for x in evs]
+    reg = ModelRegistry()
+    k = 0
+    for tx in w.net.trace:
+        if tx.host != "R" or not tx.multicast or tx.msg is None or not tx.msg.is_response:
+            continue
+        while k < len(evs) and evs[k][0] <= tx.t:
+            _, _, kind, arg = evs[k]
+            if kind in ("reg", "upd"):
+                reg.register(arg)
+            else:
+                reg.unregister(arg)
+            k += 1
+        if any(abs(tx.t - t) < 2e-6 for t in times):
+            continue  # sent in the same instant as a change: either order is fine
+        own = {i for sv in reg.s.values() for i in sv.own_idents()}
+        types = reg.types()
+        for r in tx.msg.records():
+            if r.ttl == 0 or r.type == wire.T_NSEC or r.name.lower() in mutated:
+                continue
+            if r.type == wire.T_PTR and r.name.lower() == ENUM and r.rdata.lower() in types:
+                continue
+            if r.ident() not in own:
+                stats["stale_multicast"] = stats.get("stale_multicast", 0) + 1
+                out.add("C03.stale-multicast-after-change", f"{r!r} multicast at {w.rel(tx.t):.6f} is not a record of any "
+                        f"service registered then ({sorted(reg.s)}); last changes: "
+                        f"{[(round(w.rel(t), 3), kd, a if isinstance(a, str) else a['name']) for t, _, kd, a in evs[max(0, k - 2):k]]}",
+                        rtype=r.type, enum=r.name.lower() == ENUM)
+                return
 
 
 def _history_clause(groups, stats, out):
